@@ -327,6 +327,31 @@ func c20DateTime64(c *Ctx, r *Rng) {
 				c20Model(c, fmt.Sprintf("dateTime64Time %d %d", int64(v), p), fmt.Sprintf("%d,%d,0", back.Unix(), back.Nanosecond()), cs, "dateTime64Time")
 			}
 		}
+		// the columns' entry points agree with the scalar conversion: Append one by one, AppendArr in bulk
+		{
+			one := new(proto.ColDateTime64).WithPrecision(proto.Precision(p))
+			bulk := new(proto.ColDateTime64).WithPrecision(proto.Precision(p))
+			for _, t := range instants {
+				one.Append(t)
+			}
+			bulk.AppendArr(instants)
+			R.Case(fmt.Sprintf("dt64-column|%d", p), true)
+			for i, t := range instants {
+				want := proto.ToDateTime64(t, proto.Precision(p))
+				if i >= len(one.Data) || i >= len(bulk.Data) || one.Data[i] != want || bulk.Data[i] != want {
+					got1, got2 := proto.DateTime64(0), proto.DateTime64(0)
+					if i < len(one.Data) {
+						got1 = one.Data[i]
+					}
+					if i < len(bulk.Data) {
+						got2 = bulk.Data[i]
+					}
+					c20Violate(c, "datetime64-column-append", fmt.Sprintf("precision %d, %s: ToDateTime64 = %d, Append stored %d, AppendArr stored %d", p, tstr(t), want, got1, got2),
+						map[string]any{"fn": "ColDateTime64.Append / AppendArr", "precision": p, "time": tstr(t)})
+					break
+				}
+			}
+		}
 		R.CountN(fmt.Sprintf("datetime64:p%d", p), len(instants))
 		if got := proto.Precision(p).Scale(); got != scale {
 			c20Violate(c, "precision-scale", fmt.Sprintf("Precision(%d).Scale() = %d", p, got), map[string]any{"precision": p})
